@@ -46,17 +46,15 @@ func (k *DropLabels) Process(_ otelstorage.Timestamp, line string, set LabelSet)
 }
 
 func (k *DropLabels) dropPair(label logql.Label, val pcommon.Value) bool {
-	_, ok1 := k.drop[label]
-	ms, ok2 := k.matchers[label]
-
-	if !ok1 && !ok2 {
-		return false
+	// Every list item selects on its own: a bare label name always does,
+	// a matcher does when the value matches.
+	if _, ok := k.drop[label]; ok {
+		return true
 	}
-
-	for _, m := range ms {
-		if !m.Match(val.AsString()) {
-			return false
+	for _, m := range k.matchers[label] {
+		if m.Match(val.AsString()) {
+			return true
 		}
 	}
-	return true
+	return false
 }
